@@ -82,7 +82,7 @@ def exc_sig(e):
     import traceback
 
     tb = traceback.extract_tb(e.__traceback__)
-    if tb and tb[-1].filename.endswith(("tokenize.py", "pegen/tokenizer.py")):
+    if tb and tb[-1].filename.endswith("/tokenize.py"):
         # raised by the tokenizer: which grammar rule happened to ask for the next token is noise
         sig = f"{type(e).__name__}@tokenizer"
     if sig.endswith((":compileTranslatedTree", ":astToSource")):
